@@ -393,6 +393,12 @@ func (r *phRun) obs(a map[string]interface{}) *gossipv1.SignedObservation {
 			o.Signature = nil
 		case "zerors":
 			o.Signature = make([]byte, 65)
+		case "v27":
+			// a genuine signature of the CLAIMED guardian over the right bytes, re-encoded with the Ethereum-style
+			// recovery id 27/28: not a signature in this protocol's encoding (VerifySignatures and the contracts refuse it)
+			s = k.Sign(vhStr(a, "claimed"), overHash)
+			s[64] += 27
+			o.Signature = s
 		default:
 			s[64] = 9 // invalid recovery id
 			o.Signature = s
